@@ -67,6 +67,7 @@ def shards(tier, seed):
     out += [("width", sz) for sz in WIDTH_SIZES]
     out.append(("manyspecs",))
     out.append(("repeat",))
+    out.append(("threads",))
     out += [("python-O", ("nospec",)), ("python-O", ("junk", 0, b["junk_len"])), ("python-O", ("seps", 0))]
     return out
 
@@ -250,6 +251,31 @@ def run_shard(desc, tier):
                 for perm in itertools.permutations(sub):
                     judge_grammar(list(perm), CHAIN_SIZE, RR.header_text(perm), r)
         r.sample({"size": CHAIN_SIZE, "header": RR.header_text(CHAIN), "result": _call(RR.header_text(CHAIN), CHAIN_SIZE)})
+    elif kind == "threads":
+        # two threads (two requests of a threaded server) resolve headers for files whose sizes have different digit counts; a
+        # switch is possible on every line of baize/responses.py; each gets what it gets alone
+        import os
+        from ..core import vthreads as VT
+        from ..core.explore import dfs
+        from ..core.runner import REPO
+        cases = [("bytes=0-99", 1000), ("bytes=0-5", 7), ("bytes=-3,2-2,100-", 12), ("bytes=5-, 0-1", 100000), ("bytes=99-", 50), ("junk", 3)]
+        solo = [_call(h, sz) for h, sz in cases]
+        for i in range(len(cases)):
+            for j in range(len(cases)):
+                if i == j:
+                    continue
+                jobs = [lambda i=i: _call(*cases[i]), lambda j=j: _call(*cases[j])]
+
+                def on_exec(x, i=i, j=j):
+                    r.count("evaluations")
+                    r.count("traces")
+                    res = list(x.obs["results"])
+                    if x.obs["stuck"] or res != [solo[i], solo[j]]:
+                        r.violation("threads:answer-depends-on-other-thread", {"threads": [list(cases[i]), list(cases[j])], "schedule": list(x.choices)},
+                                    f"parse_range{cases[i]} and parse_range{cases[j]} in two threads, schedule {x.obs['trace'][-10:]}: {res!r:.160}; alone {[solo[i], solo[j]]!r:.160}")
+                dfs(lambda prefix: VT.run_thread_pair(prefix, jobs, [os.path.join(REPO, "baize", "responses.py")]), on_exec, bound=1 if tier == "quick" else 2)
+                r.count("distinct_nontrivial")
+        r.sample({"threads": [list(c) for c in cases[:2]], "preemption_bound": 1 if tier == "quick" else 2})
     elif kind == "big":
         B = "9" * 5000  # more digits than int() converts by default
         H = 10 ** 40  # stands for that number in the reference (only compared, never shifted)
@@ -266,6 +292,19 @@ def run_shard(desc, tier):
                 ("bytes=" + "0" * 5000 + "1-" + "0" * 5000 + "2", [("fl", 1, 2)]),
             ):
                 judge_grammar(specs, size, header, r)
+        # the application has lowered the interpreter's limit on integer conversion after the library was imported (the limit is a
+        # run-time setting): positions of 641 .. 4300 digits
+        import sys
+        old = sys.get_int_max_str_digits()
+        sys.set_int_max_str_digits(640)
+        try:
+            for nd in (641, 1000, 4300):
+                M = "9" * nd
+                for size in (0, 1, 10):
+                    for header, specs in ((f"bytes=0-{M}", [("fl", 0, H)]), (f"bytes={M}-", [("f", H)]), (f"bytes=-{M}", [("s", H)]), (f"bytes=2-3,{M}-{M}", [("fl", 2, 3), ("fl", H, H)]), (f"bytes={M}-5", [("fl", H, 5)])):
+                        judge_grammar(specs, size, header, r)
+        finally:
+            sys.set_int_max_str_digits(old)
     return r
 
 
@@ -290,6 +329,9 @@ def replay(w):
     if w.get("optimize") and not _sys.flags.optimize:
         from ..core import fresh
         return fresh.replay_optimized(__name__, w)
+    if "threads" in w:
+        rr = run_shard(("threads",), "quick")
+        return bool(rr.viol), {"violations": sorted(rr.viol), "texts": [v[2][:300] for v in rr.viol.values()]}
     if "before" in w:
         rr = run_shard(("repeat",), "quick")
         return bool(rr.viol), {"violations": sorted(rr.viol)}
